@@ -287,20 +287,23 @@ func checkC05(c *Ctx) {
 		Infra("narrowed copy has widths %d/%d", cr.Width, cr.Width64)
 	}
 	pairs := 0
+	var narrowBad *Violation
 	for a := 0; a < 256; a++ {
 		for b := 0; b < 256; b++ {
 			pairs++
 			if cr.Table[a][b] != table[a][b] {
-				c.AddViolation(Violation{Predicate: "plus_wraps", Spec: "Counts!SatLaw", Kind: "counts",
+				narrowBad = &Violation{Predicate: "plus_wraps", Spec: "Counts!SatLaw", Kind: "counts",
 					Input:    map[string]interface{}{"narrow": true, "ops": []map[string]string{{"op": "plus32", "a": fmt.Sprint(a), "b": fmt.Sprint(b)}}},
-					Expected: []string{fmt.Sprint(table[a][b])}, Observed: map[string]interface{}{"res": cr.Table[a][b]}})
+					Expected: []string{fmt.Sprint(table[a][b])}, Observed: map[string]interface{}{"res": cr.Table[a][b]}}
 				a, b = 256, 256
 			}
 		}
 	}
 	c.CountEval(int64(pairs))
 	c.Distinct("narrow-plus-table")
-	c.Note("Counts: 8-bit Plus table of the real (narrowed) package equals TLC's table on %d pairs", pairs)
+	if narrowBad == nil {
+		c.Note("Counts: 8-bit Plus table of the real (narrowed) package equals TLC's table on %d pairs", pairs)
+	}
 
 	// Apalache: the laws at 32 and 64 bits for all integers
 	apaDir := filepath.Join(c.Scratch, "apa")
@@ -319,7 +322,25 @@ func checkC05(c *Ctx) {
 	c.Note("Apalache: saturating-addition laws hold for all operands below 2^32 / 2^64 (%.1fs)", time.Since(t0).Seconds())
 
 	// full-width boundary vectors on the real counts package, expected = min(a+b, cap) in exact arithmetic
+	nvBefore := len(c.Vio)
 	checkCountVectors(c, env.api)
+	// Faithfulness gate of the width-narrowed copy. Narrowing rewrites the two type declarations and the
+	// two capacity constants of counts/counts.go; it models the code only if the code expresses its
+	// widths through them. If the narrowed Plus is not saturating addition at 8 bits while the package
+	// as written is right on every full-width vector, the copy is not a model of this code (e.g. Plus is
+	// implemented with explicit uint32/uint64 conversions): nothing it shows is a verdict about the code.
+	narrowFaithful := true
+	if narrowBad != nil {
+		if len(c.Vio) > nvBefore {
+			c.AddViolation(*narrowBad)
+		} else {
+			narrowFaithful = false
+			in, _ := json.Marshal(narrowBad.Input)
+			ob, _ := json.Marshal(narrowBad.Observed)
+			c.Drift(fmt.Sprintf("the width-narrowed copy of counts is not a faithful 8-bit model of the code (narrowed %s gives %s) although the package is right on all full-width vectors: replays into the narrowed copy are skipped", in, ob))
+			c.Ev.Extra["narrowed_copy"] = "not faithful: skipped"
+		}
+	}
 
 	// 2. Scan with tiny capacities: the design saturates field by field
 	tiny := baseCfg("Scan_Trees_tinycaps", "Trees")
@@ -369,6 +390,9 @@ func checkC05(c *Ctx) {
 				narrowB = append(narrowB, *b)
 			}
 		})
+	}
+	if !narrowFaithful {
+		narrowCases, narrowB = nil, nil
 	}
 	results, err := runAPI(narrow, narrowCases, 16)
 	if err != nil {
@@ -439,7 +463,7 @@ func checkC05(c *Ctx) {
 	c.mu.Unlock()
 	c.Note("narrowed copy: %d behaviours replayed (%d saturated field values seen), %d state-identical with Scan; %d/%d traces accepted with caps 255/65535",
 		len(results), sat, shape, acc, len(traces))
-	if sat == 0 {
+	if sat == 0 && narrowFaithful {
 		Infra("no saturated value was exercised by the narrowed replay (vacuous)")
 	}
 	_ = s
